@@ -38,6 +38,8 @@ C0C1_LETTERS = [(Fr(0), Fr(1)), (Fr(0), Fr(1, 2)), (Fr(1, 2), Fr(1, 2)), (Fr(-1,
                 (Fr(3, 4), Fr(1, 4)), (Fr(0), Fr(0)), (Fr(-3, 5), Fr(1, 5)), (Fr(1, 3), Fr(-1, 2))]
 EPS = 2.220446049250313e-16
 CTOL = 2e3
+STRICT = 1e-9
+SIG_TABLES = 'C10:sub-interval-integral-tables-lose-accuracy-by-cancellation'
 
 _lib = None
 
@@ -194,6 +196,24 @@ def check_case(case):
         f, ratio = _cmp_block(case['fam'], got, T * np.outer(fx, fy), S * np.outer(fx, fy),
                               'sub-interval [%s,%s]' % (x1, x2), dict(x1=str(x1), x2=str(x2), flags=fl))
         fails += f
+        if not f and x1 != x2:
+            # tier 1: accuracy relative to the natural scale of the entry, sqrt(Int (D^da f_i)^2 Int (D^db f_j)^2) over the same interval
+            # (what a backward-stable evaluation delivers); deviations inside the envelope of the expanded formula but beyond this
+            # are the known loss of accuracy by cancellation
+            Ta = T if da == db else rb.table(da, da, x1, x2)[0]
+            Tb = T if da == db else rb.table(db, db, x1, x2)[0]
+            if da == db:
+                Ta = Tb = T
+            nat = np.sqrt(np.abs(np.outer(np.diag(Ta), np.diag(Tb)))) * np.outer(np.abs(fx), np.abs(fy))
+            rel = np.abs(got - T * np.outer(fx, fy)) / (nat + 1e-300)
+            rel[nat == 0] = 0.0
+            if rel.max() > STRICT:
+                i, j = np.unravel_index(np.argmax(rel), rel.shape)
+                first = int(min(max(a, b) for a, b in np.argwhere(rel > STRICT)))
+                fails.append(fail('%s: sub-interval value differs from the exact integral by more than 1e-9 of the natural entry scale '
+                                  '(inside the floating-point envelope of the generated expanded formula: cancellation)' % case['fam'],
+                                  sig=SIG_TABLES, x1=str(x1), x2=str(x2), worst_index=[int(i), int(j)], worst_rel=float(rel[i, j]),
+                                  first_index_beyond_1e9=first, got=float(got[i, j]), expected=float(T[i, j] * fx[i] * fy[j])))
         if x1 == -1 and x2 == 1:
             full = getattr(L, case['fam'][:-3])
             gf = np.array([[full(i, j, *fl) for j in range(30)] for i in range(30)])
